@@ -350,6 +350,27 @@ fn guarded<F: FnOnce() -> Value>(fun: F) -> Value {
     }
 }
 
+/// Runs `fun` on its own thread and gives up after `HANG_SECS`: a solver that never returns is
+/// reported as {"hang": true} (the stuck thread is abandoned and dies with the process).
+pub const HANG_SECS: u64 = 3;
+pub fn timed<F: FnOnce() -> Value + Send + 'static>(fun: F) -> Value {
+    let (tx, rx) = std::sync::mpsc::channel();
+    let h = std::thread::Builder::new().stack_size(64 << 20).spawn(move || {
+        let _ = tx.send(guarded(fun));
+    });
+    if h.is_err() {
+        return json!({"spawn_failed": true});
+    }
+    match rx.recv_timeout(Duration::from_secs(HANG_SECS)) {
+        Ok(v) => v,
+        Err(_) => {
+            HANGS.fetch_add(1, std::sync::atomic::Ordering::SeqCst);
+            json!({"hang": true, "after_s": HANG_SECS})
+        }
+    }
+}
+pub static HANGS: std::sync::atomic::AtomicUsize = std::sync::atomic::AtomicUsize::new(0);
+
 fn tableau_json(t: &Tableau) -> Value {
     json!({"a": t.a_matrix().iter().map(|r| fl(r)).collect::<Vec<_>>(), "b": fl(t.b_vec()), "c": fl(t.c_vec()),
         "basis": t.in_basis(), "value": f(t.current_value()), "offset": f(t.value_offset()),
@@ -439,7 +460,7 @@ pub fn replay_lm(l: &LinearModel, replay: &Value, o: &mut Value) {
                 m.add_constraint(a, Comparison::Equal, fnum(val));
             }
         }
-        o["pin"] = guarded(|| sol_json(solve_milp_lp_problem(&m)));
+        o["pin"] = timed(move || sol_json(solve_milp_lp_problem(&m)));
     }
 }
 
@@ -525,12 +546,12 @@ fn cmd_lm(v: &Value) -> Value {
                 Ok(s) => json!({"ok": std_json(&s)}),
                 Err(e) => solver_err_json(&e),
             }),
-            "slow" => guarded(|| sol_json(solve_real_lp_problem_slow_simplex(&m, 1000))),
-            "micro" => guarded(|| sol_json(solve_real_lp_problem_micro_lp(&m))),
-            "clarabel" => guarded(|| sol_json(solve_real_lp_problem_clarabel(&m))),
-            "milp" => guarded(|| sol_json(solve_milp_lp_problem(&m))),
-            "auto" => guarded(|| sol_json(auto_solver(&m))),
-            "milp_with" => guarded(|| sol_json(solve_milp_lp_problem_with(&m, &milp_opts(&arg)))),
+            "slow" => { let m = m.clone(); timed(move || sol_json(solve_real_lp_problem_slow_simplex(&m, 1000))) }
+            "micro" => { let m = m.clone(); timed(move || sol_json(solve_real_lp_problem_micro_lp(&m))) }
+            "clarabel" => { let m = m.clone(); timed(move || sol_json(solve_real_lp_problem_clarabel(&m))) }
+            "milp" => { let m = m.clone(); timed(move || sol_json(solve_milp_lp_problem(&m))) }
+            "auto" => { let m = m.clone(); timed(move || sol_json(auto_solver(&m))) }
+            "milp_with" => { let m = m.clone(); let o = milp_opts(&arg); timed(move || sol_json(solve_milp_lp_problem_with(&m, &o))) }
             "lp" => guarded(|| json!(m.to_lp_format())),
             "text" => guarded(|| json!(m.to_string())),
             "eval" => guarded(|| {
@@ -546,7 +567,7 @@ fn cmd_lm(v: &Value) -> Value {
                         .collect(),
                 )
             }),
-            "trace" => guarded(|| {
+            "trace" => { let m = m.clone(); let arg = arg.clone(); timed(move || {
                 let std = match m.clone().into_standard_form() {
                     Ok(s) => s,
                     Err(e) => return json!({"std_err": e.to_string()}),
@@ -575,8 +596,8 @@ fn cmd_lm(v: &Value) -> Value {
                     }
                 }
                 json!({"std": std_dump, "end": end, "trace": trace})
-            }),
-            "steps" => guarded(|| {
+            }) },
+            "steps" => { let m = m.clone(); let arg = arg.clone(); timed(move || {
                 let std = match m.clone().into_standard_form() {
                     Ok(s) => s,
                     Err(e) => return json!({"std_err": e.to_string()}),
@@ -593,7 +614,7 @@ fn cmd_lm(v: &Value) -> Value {
                         "final": tableau_json(r.result().tableau())}),
                     Err(e) => json!({"first": first, "err": simplex_err(&e)}),
                 }
-            }),
+            }) },
             o => json!({"unknown_op": o}),
         };
         out[key] = r;
@@ -603,7 +624,7 @@ fn cmd_lm(v: &Value) -> Value {
 
 fn cmd_solve_text(v: &Value) -> Value {
     let src = v["src"].as_str().unwrap().to_string();
-    guarded(|| match RoocSolver::try_new(src) {
+    timed(move || match RoocSolver::try_new(src) {
         Err(e) => json!({"ok": false, "kind": "Parse", "msg": e.to_string()}),
         Ok(s) => match s.solve_using(auto_solver) {
             Ok(sol) => sol_json(Ok(sol)),
@@ -636,7 +657,18 @@ fn main() {
             "pipe" => front::cmd_pipe(&v),
             o => json!({"unknown_cmd": o}),
         });
+        if HANGS.load(std::sync::atomic::Ordering::SeqCst) > 0 {
+            // abandoned threads keep spinning: hand the remaining jobs to a fresh process
+            let mut r = r;
+            if let Some(o) = r.as_object_mut() {
+                o.insert("_restart".to_string(), json!(true));
+            }
+            writeln!(out, "{}", r).unwrap();
+            break;
+        }
         writeln!(out, "{}", r).unwrap();
     }
     out.flush().unwrap();
+    drop(out);
+    std::process::exit(0);
 }
